@@ -768,6 +768,7 @@ func cmdRun(args []string) int {
 	}
 	sort.Strings(keys)
 	nviol := 0
+	var unrepro []string
 	nMin := 0 // only the first few new signatures are minimised (wall-clock cap)
 	for _, key := range keys {
 		rs := a.viol[key]
@@ -780,22 +781,38 @@ func cmdRun(args []string) int {
 			}
 		}
 		nviol += len(rs)
-		full, crashed := getActions(bin, prop, r0.Seed, gmp)
-		if full == nil {
-			fail2("cannot recover the action list of seed %d", r0.Seed)
-		}
-		rf := &ReplayFile{Property: v.Property, Invariant: v.Invariant, Signature: v.Signature, Detail: v.Detail,
-			Config: full.Config, Actions: full.Actions, TreeHash: th, OrigLen: len(full.Actions), MinLen: len(full.Actions), Crash: crashed}
+		// the first run of the group whose replay file reproduces it carries the report; a
+		// group none of whose runs replays is set aside (and makes the check fail as a
+		// harness problem unless something else is reported)
+		var rf *ReplayFile
+		var v1 *Violation
 		h := sha256.Sum256([]byte(key))
 		path := filepath.Join(verifDir, "replays", fmt.Sprintf("%s-%x.json", v.Property, h[:5]))
-		writeReplay(path, rf)
-		v1, ok1 := replayMatches(bin, path, v.Property, v.Signature, gmp)
-		if !ok1 {
-			got := "nothing"
-			if v1 != nil {
-				got = v1.Signature
+		for _, rc := range rs {
+			if rc == nil {
+				continue
 			}
-			fail2("seed %d violated %s [%s] but its replay file does not reproduce it (got %s): simulator not deterministic?", r0.Seed, v.Property, v.Signature, got)
+			full, crashed := getActions(bin, prop, rc.Seed, gmp)
+			if full == nil {
+				fail2("cannot recover the action list of seed %d", rc.Seed)
+			}
+			cand := &ReplayFile{Property: v.Property, Invariant: v.Invariant, Signature: v.Signature, Detail: rc.Violation.Detail,
+				Config: full.Config, Actions: full.Actions, TreeHash: th, OrigLen: len(full.Actions), MinLen: len(full.Actions), Crash: crashed}
+			writeReplay(path, cand)
+			got, ok1 := replayMatches(bin, path, v.Property, v.Signature, gmp)
+			if ok1 {
+				rf, v1, r0 = cand, got, rc
+				break
+			}
+			gs := "nothing"
+			if got != nil {
+				gs = got.Signature
+			}
+			unrepro = append(unrepro, fmt.Sprintf("seed %d violated %s [%s] but its replay file does not reproduce it (got %s)", rc.Seed, v.Property, v.Signature, gs))
+		}
+		if rf == nil {
+			os.Remove(path)
+			continue
 		}
 		unmin := *rf
 		nMin++
@@ -816,6 +833,13 @@ func cmdRun(args []string) int {
 		fmt.Printf("  invariant=%s signature=%s seed=%d occurrences=%d actions %d -> %d\n  %s\n",
 			v.Invariant, v.Signature, r0.Seed, len(rs), rf.OrigLen, rf.MinLen, strings.ReplaceAll(tail(firstLines(v2.Detail, 12), 1500), "\n", "\n  "))
 		exit = 1
+	}
+
+	for _, u := range unrepro {
+		fmt.Fprintf(os.Stderr, "vcheck: %s\n", u)
+	}
+	if exit == 0 && len(unrepro) > 0 {
+		fail2("%d violation(s) seen that no replay file reproduces: simulator not deterministic on this tree? (not a verdict)", len(unrepro))
 	}
 
 	// 4. evidence
